@@ -47,6 +47,16 @@ fn scrub(bytes: Vec<u8>, out_dir: &Path) -> Vec<u8> {
     res
 }
 
+/// Leftovers of an earlier run for another claim: files of the names this command will write, with longer contents.
+pub fn dirty(out_dir: &Path, names: &[(String, Vec<u8>)]) {
+    for (n, c) in names {
+        let mut stale = b"% left behind by an earlier run\n".to_vec();
+        stale.extend_from_slice(c);
+        stale.extend_from_slice(b"tff(stale_tail, axiom, $false).\n% end of stale file\n");
+        let _ = fs::write(out_dir.join(n), stale);
+    }
+}
+
 pub fn observe(bins: &Binaries, cmd: &Cmd, in_dir: &Path, out_dir: &Path, env: &Env) -> Obs {
     let mut args = cmd.resolved_args(in_dir, out_dir);
     let stdin_data = cmd.stdin_file.as_ref().map(|n| cmd.files.iter().find(|(f, _)| f == n).map(|(_, c)| c.clone().into_bytes()).unwrap_or_default());
@@ -129,6 +139,9 @@ pub fn differs(bins: &Binaries, cmd: &Cmd, a: &Env, b: &Env, scratch: &Mutex<Scr
     let oa = fresh(scratch, "out");
     let ob = fresh(scratch, "out");
     let xa = observe(bins, cmd, &in_dir, &oa, a);
+    if b.dirty_out && cmd.uses_out {
+        dirty(&ob, &xa.files);
+    }
     let xb = observe(bins, cmd, &in_dir, &ob, b);
     let d = compare(&xa, &xb);
     for d in [&in_dir, &oa, &ob] {
@@ -284,6 +297,7 @@ fn count_dims(t: &mut Tally, e: &Env) {
     b("locale_tz_term_vars", e.locale.is_some() || e.tz.is_some() || e.term.is_some() || e.no_color || e.columns.is_some());
     b("home_user_rust_vars", !e.extra_vars.is_empty());
     b("other_working_directory", e.other_cwd);
+    b("output_directory_with_stale_files", e.dirty_out);
     b("native_no_interposer", !e.preload);
 }
 
@@ -362,6 +376,11 @@ pub fn main(args: &Args) {
                     if copies == 2 {
                         // two copies of the same command at the same time, separate output directories
                         let outs: Vec<PathBuf> = (0..2).map(|_| fresh(&scratch, "out")).collect();
+                        if env.dirty_out && cmd.uses_out {
+                            for o in &outs {
+                                dirty(o, &base.files);
+                            }
+                        }
                         let hs: Vec<_> = outs
                             .iter()
                             .map(|o| {
@@ -378,6 +397,9 @@ pub fn main(args: &Args) {
                         local.concurrent_pairs += 1;
                     } else {
                         let o = fresh(&scratch, "out");
+                        if env.dirty_out && cmd.uses_out {
+                            dirty(&o, &base.files);
+                        }
                         obs.push(observe(&bins, cmd, &in_dir, &o, &env));
                         let _ = fs::remove_dir_all(o);
                     }
